@@ -41,9 +41,19 @@ def key_of(o):
     return "%s %s in %s" % (o.kind, o.what, o.site.fn.def_path)
 
 
-def run(ctx, cfg="dev"):
+def run(ctx):
+    an = run_cfg(ctx, "dev", first=True)
+    if ctx.tier == "thorough":
+        # optimised build: no overflow or debug assertions, arithmetic wraps - the explicit panics and std preconditions remain
+        run_cfg(ctx, "release", first=False)
+    return an
+
+
+def run_cfg(ctx, cfg, first):
     facts = ctx.facts(cfg)
     an = RepoAnalyzer(facts, capacity_ok=True)
+    if not first:
+        return _rules(ctx, facts, an, cfg)
     ctx.decided += [
         "P1 no reachable panic: for each of the %d entry points, every assert terminator (overflow, bounds, ...), diverging panic call, "
         "std call with a documented panic and unsafe precondition in every reachable function is unreachable for all strings "
@@ -56,8 +66,13 @@ def run(ctx, cfg="dev"):
         "position-dependent stages are analysed under the listed assumptions (A-KING, A-UNFINISHED) and the invariants checked by "
         "C06 (well-formed moves), C11 (validator) and C15 (magic offsets)",
     ]
-    r1 = ctx.rule("P1", "no assertion, panic or unsafe precondition is reachable from a parsing entry point")
-    r0 = ctx.rule("P0", "external callees reachable from parsers are classified (total, or partial with a precondition model)")
+    return _rules(ctx, facts, an, cfg)
+
+
+def _rules(ctx, facts, an, cfg):
+    sfx = "" if cfg == "dev" else "-" + cfg
+    r1 = ctx.rule("P1" + sfx, "no assertion, panic or unsafe precondition is reachable from a parsing entry point [%s build]" % cfg)
+    r0 = ctx.rule("P0" + sfx, "external callees reachable from parsers are classified (total, or partial with a precondition model) [%s build]" % cfg)
     units = set()
     discharged = 0
     seen_open = set()
